@@ -48,7 +48,7 @@ def compareInt (a b : Int) : Int := if a < b then -1 else if a > b then 1 else 0
 /-- `isOrdered(expected, actual, satisfies)` -/
 def isOrdered (expected actual : Node) (op : Op) : Bool :=
   match expected, actual with
-  | .int b, .int a => op.satisfies (compareInt a b)
+  | .int b, .int a => intFits64 a && intFits64 b && op.satisfies (compareInt a b)
   | .float b, .float a =>
     if Float64.isInf a || Float64.isNaN a || Float64.isInf b || Float64.isNaN b then false
     else op.satisfies (Float64.compare a b)
